@@ -212,6 +212,15 @@ structure FontLimits where
   hasGvar : Bool
 deriving DecidableEq, Repr
 
+/-- `Outlines::new`: the limits are taken from `maxp` (missing fields = 0) with FreeType's safety
+margins (`saturating_add` on `u16`), the `cvt ` length and the presence of `gvar` -/
+def limitsOfMaxp (maxStackElements maxTwilightPoints maxStorage cvtLen : Nat) (hasGvar : Bool) : FontLimits :=
+  { maxStack := min (maxStackElements + 32) 65535
+    cvtCount := cvtLen
+    storageCount := maxStorage
+    maxTwilightPoints := min (maxTwilightPoints + 4) 65535
+    hasGvar := hasGvar }
+
 /-- `Outlines::outline(glyph_id)`: `glyph = none` ≙ `loca.get_glyf` returned `None` -/
 def outlineCounts (f : FontLimits) (glyph : Option Glyph) : Option Counts :=
   let acc : Option Acc := match glyph with
